@@ -2,7 +2,7 @@
    assignment of Assign.v (`impl_plans` = SevenZipFile._real_get_contents) and the header
    graph of Header.v.
 
-   Mirrors, line by line, of py7zr/py7zr.py:
+   Mirrors, line by line, of py7zr/py7zr.py (line numbers of the tree the property was anchored on):
      ArchiveFile.filename / uncompressed / crc32 / _test_attribute / is_directory / archivable /
        readonly / _get_unix_extension / is_symlink / is_junction / is_socket       (112-235)
      _real_get_contents: the generated name of an entry stored without one         (509-521)
